@@ -284,6 +284,11 @@ CLAIMED["C19"]["text"] += (
     "keeps_rule_closes_foreign (psf_close_rsrc without the reset closes another handle's descriptor). Correspondence exact: the descriptor table printed by the harness after every operation "
     "(fstat identity of every number) equals `sfmodel fdworld` for all 90 open/close orders of handle triples (sf_open, sf_open_fd close_desc 1/0, SD2, ALAC, r/w/rw) with sentinel descriptors; "
     "the isolation predicate and each handle's solo-vs-merged results are judged on the implementation's transcripts.")
+CLAIMED["C02"]["text"] += (" Round 5: cross-type agreement for EVERY codec and type switching (lean/SfModel/CrossType.lean decides, `sfmodel crosstype`, vlib/crosstype.py): "
+                           "for every writable (major, subtype, endian) twin files int vs short (narrowing; G.711 by sign and magnitude), short vs int << 16 and float / double vs the rounded int twin must be "
+                           "byte-identical; the four sequential reference streams agree item by item with normalisation on and off; seeded read plans that switch the caller type at arbitrary positions on "
+                           "one handle deliver slices of each type's reference stream. Theorems lean/SfProps/C02Cross.lean (every codec model satisfies the checkers, all samples); the campaign is sampled.")
+
 
 CLAIMED["C04"]["text"] += (
     " Round 5 (small containers, group 4): MAT5 and SDS have byte-exact models (lean/SfModel/Mat5.lean, SdsFile.lean) with universal theorems in lean/SfProps/C04Mat5.lean"
